@@ -22,7 +22,7 @@ def run(ctx):
     ctx.proofs()
     if not ctx.build():
         return
-    n = ctx.scale(500, 8000)
+    n = ctx.scale(350, 8000)
     pool = runlib.program_pool(ctx, n, n_unknown=ctx.scale(40, 300), flags_for_guards=(0, FLAG["NEW_COST_MODEL"]))
     base, var = [], []
     for p, e, tag in pool:
